@@ -110,6 +110,13 @@ def rawTag : Nat := tagOf "Raw"
 def objTag : Nat := tagOf "Object"
 def ptrTag (safe : Bool) : Nat := if safe then tagOf "SafePointer" else tagOf "ObjectPointer"
 
+/-- how the reading host obtains the object of an `Object` record (the writer has one way only) -/
+inductive RMode
+  | into    -- `ArchiveObject(obj)` on an object the host already has
+  | typed   -- `ReadObject<T>()`: `T::staticclass().createInstance()`, then `ArchiveObject(*instance)`
+  | poly    -- `Class* ReadObject()`: the instance is created from the class name stored in the record
+  deriving DecidableEq, Repr
+
 /-- one `Archive*` call together with the value it is given (write mode) / returns (read mode).
     Integers, floats, booleans are their bit patterns (`v < 256 ^ width`). -/
 inductive Item where
@@ -118,7 +125,8 @@ inductive Item where
   | str (bs : Bytes)                                   -- Archive(arc, str)
   | ptr (safe : Bool) (target : Lbl)                   -- ArchiveObjectPointer / ArchiveSafePointer
   | position (o : Lbl)                                 -- ArchiveObjectPosition(o)
-  | object (o : Lbl) (cls : Bytes) (body : List Item)  -- ArchiveObject(o); body = what o.Archive(arc) does
+  /-- `ArchiveObject(o)`; body = what `o.Archive(arc)` does; `m` = how the record is read back -/
+  | object (m : RMode) (o : Lbl) (cls : Bytes) (body : List Item)
   deriving Repr
 
 /-! ## writer -/
@@ -143,7 +151,7 @@ def encItem (t : List Lbl) : Item → List Lbl × Bytes
     if o = 0 then (t, tagB (ptrTag safe) ++ le 4 nullIdx)
     else ((addUnique t o).1, tagB (ptrTag safe) ++ le 4 (addUnique t o).2)
   | .position o => ((addUnique t o).1, encPrim .pos (addUnique t o).2)
-  | .object o cls body =>
+  | .object _ o cls body =>
     let t1 := (addUnique t o).1
     let r := encItems t1 body
     (r.1, tagB objTag ++ le 8 r.2.length ++ encStr cls ++ encPrim .u32 (addUnique t o).2 ++ r.2)
@@ -183,7 +191,7 @@ inductive Sch where
   | str
   | ptr (safe : Bool)
   | position (o : Lbl)
-  | object (o : Lbl) (cls : Bytes) (body : List Sch)
+  | object (m : RMode) (o : Lbl) (cls : Bytes) (body : List Sch)
   deriving Repr
 
 mutual
@@ -193,7 +201,7 @@ def schemaOfItem : Item → Sch
   | .str _ => .str
   | .ptr safe _ => .ptr safe
   | .position o => .position o
-  | .object o cls body => .object o cls (schemaOf body)
+  | .object m o cls body => .object m o cls (schemaOf body)
 def schemaOf : List Item → List Sch
   | [] => []
   | i :: is => schemaOfItem i :: schemaOf is
@@ -286,6 +294,30 @@ def getClass (classes : List Bytes) (name : Bytes) : Option Bytes :=
 
 def toInt64 (n : Nat) : Int := if n < 2 ^ 63 then (n : Int) else (n : Int) - 2 ^ 64
 
+def errOfName : String → Err
+  | "ReadPastEndObject" => .readPastEnd
+  | "NotReadEntireDataObject" => .notReadEntire
+  | _ => .streamFail
+
+/-- the chain `if ((endpos - objstart) OP size) throw ArchiveErrors::E(); else if …` behind the body of an
+    object record, as the translator found it in the source (`d = endpos - objstart`) -/
+def bracket : List (String × String) → Int → Int → Option Err
+  | [], _, _ => none
+  | (op, e) :: r, d, size =>
+    if (op = ">" ∧ d > size) ∨ (op = "<" ∧ d < size) ∨ (op = "!=" ∧ d ≠ size) then some (errOfName e)
+    else bracket r d size
+
+/-- `Archiver.cpp` has two copies of the bracket: in `ArchiveObject` (also reached by `ReadObject<T>()`) and in
+    the non-template `ReadObject()`; each is its own transcription (`Gen/ArchiveTable.lean`) -/
+def bracketOf (m : RMode) (d size : Int) : Option Err :=
+  bracket (if m = .poly then Gen.Archive.bracketPoly else Gen.Archive.bracketInto) d size
+
+/-- throw what the bracket says, or go on with `k` -/
+def brk {α : Type} (o : Option Err) (s : RS) (k : Res α) : Res α :=
+  match o with
+  | some e => .err e s
+  | none => k
+
 mutual
 def readItem (cfg : Cfg) (classes : List Bytes) : Sch → RS → Res Item
   | .prim p, s => (readPrim cfg p s).bind fun v s => .ok (.prim p v) s
@@ -295,7 +327,9 @@ def readItem (cfg : Cfg) (classes : List Bytes) : Sch → RS → Res Item
   | .position o, s =>
     (readData cfg (Prim.pos).tag 4 (some (zeros 4)) s).bind fun bs s =>
       (addAt cfg (unle bs) o s).bind fun _ s => .ok (.position o) s
-  | .object o cls body, s =>
+  | .object m o cls body, s =>
+    -- `ArchiveObject` (read mode) and `Class* ReadObject()`: the same text up to the class test and the
+    -- creation of the instance; each has its own copy of the size bracket (`bracketOf`)
     (readN cfg 4 none s).bind fun tb s =>
       if unle tb ≠ objTag then .err .typeError s else
       (readN cfg 8 none s).bind fun sb s =>
@@ -304,15 +338,15 @@ def readItem (cfg : Cfg) (classes : List Bytes) : Sch → RS → Res Item
           match getClass classes name with
           | none => .err .invalidClass s
           | some c =>
-            if c ≠ cls then .err .objectClassError s else
+            -- `if (&obj.classinfo() != cls) throw ObjectClassError` — `ReadObject()` has no object to compare with
+            if m ≠ .poly ∧ c ≠ cls then .err .objectClassError s else
             (readData cfg (Prim.u32).tag 4 none s).bind fun ib s =>
               if cfg.indexChecked && (unle ib == 0 || unle ib > s.table.length) then .err .invalidIndex s else
               let objstart := tell s
+              -- `ReadObject()`: `cls->createInstance()` here (the harness's classes always yield an instance)
               (readItems cfg classes body s).bind fun items s =>
-                let d := tell s - objstart
-                if d > size then .err .readPastEnd s
-                else if d < size then .err .notReadEntire s
-                else (addAt cfg (unle ib) o s).bind fun _ s => .ok (.object o cls items) s
+                brk (bracketOf m (tell s - objstart) size) s
+                  ((addAt cfg (unle ib) o s).bind fun _ s => .ok (.object m o c items) s)
 def readItems (cfg : Cfg) (classes : List Bytes) : List Sch → RS → Res (List Item)
   | [], s => .ok [] s
   | c :: cs, s =>
@@ -339,7 +373,7 @@ mutual
 /-- `Close` in read mode: every fix-up slot receives `classpointerList.ObjectAt(index)` -/
 def fixItem (table : List Lbl) : Item → Item
   | .ptr safe i => .ptr safe (if i = 0 then 0 else table.getD (i - 1) 0)
-  | .object o cls body => .object o cls (fixItems table body)
+  | .object m o cls body => .object m o cls (fixItems table body)
   | it => it
 def fixItems (table : List Lbl) : List Item → List Item
   | [] => []
@@ -366,6 +400,8 @@ def decode (cfg : Cfg) (classes : List Bytes) (info : Info) (sch : List Sch) (by
 
 inductive PC
   | hdr | tag | ver | size | cls | len | name | ncls | idx | data
+  /-- class-name characters of a record read by `ReadObject()`: the reader has no expected class to compare with -/
+  | pcls
   deriving DecidableEq, Repr
 
 def layPrim (c : PC) (p : Prim) : List PC := List.replicate 4 .tag ++ List.replicate p.width c
@@ -379,8 +415,9 @@ def layItem : Item → List PC
   | .str bs => layStr .data bs
   | .ptr _ _ => List.replicate 4 .tag ++ List.replicate 4 .idx
   | .position _ => layPrim .idx .pos
-  | .object _ cls body =>
-    List.replicate 4 .tag ++ List.replicate 8 .size ++ layStr .cls cls ++ layPrim .idx .u32 ++ layItems body
+  | .object m _ cls body =>
+    List.replicate 4 .tag ++ List.replicate 8 .size ++ layStr (if m = .poly then .pcls else .cls) cls
+      ++ layPrim .idx .u32 ++ layItems body
 def layItems : List Item → List PC
   | [] => []
   | i :: is => layItem i ++ layItems is
